@@ -55,7 +55,9 @@ def real_pack(ty, value, reg: S.Reg, entry: str):
         raise
     except Exception as e:  # class could not be built: reported by caller
         return {"build_error": f"{type(e).__name__}: {e}"[:300]}, None, value
-    viter = S.canon(obj, reg, iter_order=True)
+    objmap = {}
+    viter = S.canon(obj, reg, iter_order=True, objmap=objmap)
+    reg.objmap = objmap
     try:
         if entry == "mixin":
             r = obj.to_dict()
@@ -98,6 +100,8 @@ def compare(model: dict, real: dict, reg: S.Reg):
     exceptions must coincide, raw Python exceptions only need to be raw on both sides."""
     if model is None:
         return True, "model unavailable"
+    if model.get("inconclusive"):
+        return True, "inconclusive: oracle table incomplete for this case"
     if "driver_error" in model or "unparsable" in model:
         return False, f"driver: {model}"
     if "ok" in real:
@@ -126,3 +130,147 @@ def compare(model: dict, real: dict, reg: S.Reg):
             return (S.same(a, b), "documented exceptions differ")
         return True, ""
     return True, "build error"
+
+
+# ---------------------------------------------------------------------------------------
+# wire classes / ambiguity of unions (the exclusion "unions whose members share a wire form")
+# ---------------------------------------------------------------------------------------
+
+STR_LEAVES = {"datetime", "date", "time", "timezone", "zoneinfo", "uuid", "decimal", "fraction", "ipv4addr", "ipv6addr", "ipv4net", "ipv6net", "ipv4if", "ipv6if", "path", "pattern", "bytes", "bytearray"}
+
+
+def wire_classes(t, nt_as_dict=False) -> set:
+    """the JSON-level classes a member's serialized form can have"""
+    if isinstance(t, str):
+        return {"any": {"null", "bool", "int", "float", "str", "list", "dict"}, "none": {"null"}, "bool": {"bool"}, "int": {"int"}, "float": {"float"}, "str": {"str"}}[t]
+    tag = t[0]
+    if tag == "leaf":
+        return {"float"} if t[1] == "timedelta" else {"str"}
+    if tag in ("enum", "lit"):
+        out = set()
+        vals = [v for _m, v in t[2]] if tag == "enum" else [w for _c, w in t[1]]
+        for v in vals:
+            if v is None:
+                out.add("null")
+            elif v is True or v is False:
+                out.add("bool")
+            else:
+                out.add({"i": "int", "f": "float", "s": "str"}.get(v[0], "other"))
+        return out
+    if tag == "opt":
+        return {"null"} | wire_classes(t[1], nt_as_dict)
+    if tag == "union":
+        out = set()
+        for m in t[1]:
+            out |= wire_classes(m, nt_as_dict)
+        return out
+    if tag in ("coll", "tvar", "tfix", "tunp", "chain"):
+        return {"list"}
+    if tag == "nt":
+        return {"list", "dict"}
+    if tag in ("map", "td", "dc"):
+        return {"dict"}
+    return {"other"}
+
+
+def ambiguous_union(ty) -> bool:
+    """does the schema contain a union two of whose members can have the same wire class?"""
+    for n in S.ty_nodes(ty):
+        if not isinstance(n, str) and n[0] == "union":
+            seen = set()
+            for m in n[1]:
+                w = wire_classes(m)
+                if w & seen:
+                    return True
+                seen |= w
+    return False
+
+
+def has_union(ty) -> bool:
+    return any((not isinstance(n, str)) and n[0] == "union" for n in S.ty_nodes(ty))
+
+
+def mentions(ty, tag, sub=None) -> bool:
+    for n in S.ty_nodes(ty):
+        if not isinstance(n, str) and n[0] == tag and (sub is None or n[1] == sub):
+            return True
+    return False
+
+
+def py_conforms(ty, x, reg) -> bool:
+    """independent reading of the annotation: is x an instance of it, built from the very
+    classes named (canonical concrete classes)?"""
+    import collections
+    import dataclasses
+    import types as _t
+
+    if isinstance(ty, str):
+        if ty == "any":
+            return True
+        return type(x) is {"none": type(None), "bool": bool, "int": int, "float": float, "str": str}[ty]
+    tag = ty[0]
+    if tag == "leaf":
+        c = S.LEAF_TYPES[ty[1]]
+        if ty[1] == "path":
+            import pathlib
+
+            return type(x) is pathlib.PosixPath
+        if ty[1] == "pattern":
+            import re
+
+            return isinstance(x, re.Pattern)
+        return type(x) is c
+    if tag == "enum":
+        return type(x) is reg.by_id[ty[1]]
+    if tag == "lit":
+        for c, _w in ty[1]:
+            cv = S.from_v(c, reg)
+            if type(cv) is type(x) and cv == x:
+                return True
+        return False
+    if tag == "opt":
+        return x is None or py_conforms(ty[1], x, reg)
+    if tag == "union":
+        return any(py_conforms(m, x, reg) for m in ty[1])
+    if tag == "coll":
+        return type(x) is S.COLL_CLASS[ty[1]] and all(py_conforms(ty[2], e, reg) for e in x)
+    if tag == "map":
+        if type(x) is not S.MAP_CLASS[ty[1]]:
+            return False
+        return all(py_conforms(ty[2], k, reg) and py_conforms(ty[3], v, reg) for k, v in x.items())
+    if tag == "chain":
+        return type(x) is collections.ChainMap and all(type(m) is dict and all(py_conforms(ty[1], k, reg) and py_conforms(ty[2], v, reg) for k, v in m.items()) for m in x.maps)
+    if tag == "tvar":
+        return type(x) is tuple and all(py_conforms(ty[1], e, reg) for e in x)
+    if tag == "tfix":
+        return type(x) is tuple and len(x) == len(ty[1]) and all(py_conforms(t, e, reg) for t, e in zip(ty[1], x))
+    if tag == "tunp":
+        pre, mid, post = ty[1], ty[2], ty[3]
+        if type(x) is not tuple or len(x) < len(pre) + len(post):
+            return False
+        a, b, c = x[: len(pre)], x[len(pre) : len(x) - len(post)], x[len(x) - len(post) :]
+        return all(py_conforms(t, e, reg) for t, e in zip(pre, a)) and all(py_conforms(mid, e, reg) for e in b) and all(py_conforms(t, e, reg) for t, e in zip(post, c))
+    if tag == "nt":
+        return type(x) is reg.by_id[ty[1]] and len(x) == len(ty[2]) and all(py_conforms(t, e, reg) for (_n, t), e in zip(ty[2], x))
+    if tag == "td":
+        if type(x) is not dict:
+            return False
+        allk = {n: t for n, t in ty[2] + ty[3]}
+        if any(k not in allk for k in x):
+            return False
+        if any(n not in x for n, _t2 in ty[2]):
+            return False
+        return all(py_conforms(allk[k], v, reg) for k, v in x.items())
+    if tag == "dc":
+        if type(x) is not reg.by_id[ty[1]]:
+            return False
+        for fd, t in ty[3]:
+            if not hasattr(x, fd["name"]):
+                return False
+            v = getattr(x, fd["name"])
+            if v is None and fd.get("default") is not None and fd["default"][1] is None:
+                continue
+            if not py_conforms(t, v, reg):
+                return False
+        return True
+    return False
